@@ -69,8 +69,8 @@ func cmdConc(args []string) error {
 	for round := 0; round < *rounds; round++ {
 		for ei, src := range exprs {
 			for _, k := range []int{2, 4, 16} {
-				for _, ncalls := range []int{1, 3, 400} {
-					if ncalls == 400 && (k == 2 || ei < 14) {
+				for _, ncalls := range []int{1, 3, 40} {
+					if ncalls == 40 && (k == 2 || ei < 14) {
 						continue // the long-running variant only for the expressions whose selectors meet values of several numeric kinds
 					}
 					for _, object := range []string{"shared evaluator", "shared filter", "create concurrently"} {
